@@ -36,6 +36,8 @@ static J op_to_json(const Op& o) {
     case O_BULK: j.set("count", o.a); j.set("repeat", o.slot2); j.set("state", o.s); break;
     default: break;
   }
+  if (o.adv) j.set("adv", o.adv);
+  if (o.skew) j.set("skew", o.skew);
   return j;
 }
 static Op op_from_json(const J& j) {
@@ -50,6 +52,7 @@ static Op op_from_json(const J& j) {
   o.s = j.gets("state");
   if (o.k == O_BULK) { o.a = j.geti("count"); o.slot2 = static_cast<int>(j.geti("repeat")); }
   if (o.k == O_QUERY) o.q = query_from_json(j);
+  o.adv = j.geti("adv"); o.skew = j.geti("skew");
   return o;
 }
 static const char* chooser_name(ChooserKind c) {
@@ -406,15 +409,22 @@ ConcCase gen_conc(const std::string& property, const std::string& tier, uint64_t
     }
     c.tasks.push_back(ops);
   }
-  // Re-entrant factories (the factory itself calls into cctz) are generated only on request: no property says a
-  // factory may do that, upstream's older single-lock design deadlocks on it as well, and a check must not raise an
-  // alarm on a tree whose only "fault" is a non-recursive load lock.  VERIF_REENTRANT_FACTORY=1 turns them on
-  // (the draws are made either way so that the rest of the case does not depend on the setting).
+  // Simulated time: most calls follow each other at once, some after seconds or minutes, a few after hours or days;
+  // now and then the wall clock is stepped (NTP correction, an operator setting the date).
+  for (auto& ops : c.tasks) for (Op& o : ops) {
+    uint64_t p = wl.below(1000);
+    if (p < 80) o.adv = static_cast<int64_t>(wl.range(1, 120));
+    else if (p < 110) o.adv = static_cast<int64_t>(wl.pick(std::vector<int64_t>{3600, 86400, 2 * 86400, 40 * 86400, 400 * 86400}));
+    else if (p < 118) o.skew = wl.pick(std::vector<int64_t>{-400LL * 86400, -3600, -1, 1, 3650LL * 86400});
+  }
+  // Re-entrant factories: the factory itself calls into cctz (formats a timestamp, asks for a fixed zone, loads another
+  // name, asks for the local zone) - ordinary user code.  The contract must hold for the outer and the nested
+  // invocations alike.  A tree whose load lock is not recursive deadlocks on the nested load; no listed property
+  // forbids that design, so such a deadlock is counted (probe) and the run left unjudged, never reported.
   {
-    static const bool enabled = [] { const char* e = secure_getenv("VERIF_REENTRANT_FACTORY"); return e && *e == '1'; }();
     bool pick = wl.chance(0.06);
     int mode = static_cast<int>(wl.range(1, 4));
-    if (!is_c14 && pick && enabled) c.factory_reenters = mode;
+    if (!is_c14 && pick) c.factory_reenters = mode;
   }
   if (c.factory_reenters == 3) { c.tz_env_zone = -2; }
   if (wl.chance(0.004)) {
@@ -594,6 +604,9 @@ struct Exec {
 
   void run_op(int t, int opidx, const Op& o) {
     char b[160];
+    // Time passes between calls - seconds, sometimes hours or days - and the wall clock may be stepped.
+    if (o.adv > 0) { clk.now += o.adv; ev("clock +" + std::to_string(o.adv) + "s"); }
+    if (o.skew != 0) { clk.skew = o.skew; ev("wall clock stepped to " + std::to_string(o.skew) + "s from monotonic"); }
     switch (o.k) {
       case O_LOAD: {
         if (o.z < 0 || static_cast<size_t>(o.z) >= c.zones.size()) break;
@@ -778,7 +791,9 @@ Outcome exec_conc(const ConcCase& c, bool keep_log, Stats* stats) {
     Violation v; v.cls = cls; v.site = strip_salt(site, x.salt); v.detail = strip_salt(detail, x.salt);
     out.violations.push_back(v);
   };
-  if (sr.deadlock) { viol("deadlock", "all unfinished tasks blocked", sr.deadlock_info); out.poisoned = true; }
+  bool unjudged_deadlock = false;
+  if (sr.deadlock && c.factory_reenters >= 2) { unjudged_deadlock = true; out.poisoned = true; }   // nested load under a non-recursive load lock (see gen_conc)
+  else if (sr.deadlock) { viol("deadlock", "all unfinished tasks blocked", sr.deadlock_info); out.poisoned = true; }
   if (sr.steps_exceeded) { viol("steps-exceeded", "step cap reached", ""); out.poisoned = true; }
 
   const bool c13 = c.property == "C13", c14 = c.property == "C14", c20 = c.property == "C20";
@@ -897,6 +912,19 @@ Outcome exec_conc(const ConcCase& c, bool keep_log, Stats* stats) {
         std::sort(v.begin(), v.end(), [](const LoadRec* a, const LoadRec* b) { return a->seq_ret < b->seq_ret; });
         const LoadRec* first = v[0];
         std::string zname = first->requested;
+        // The very first outcome of a name must itself be what a fresh process gets - whatever other names were
+        // loaded (or failed) before it.  Judged when nothing about this name changed during the run.
+        if (kv.first >= 0 && !first->local) {
+          const ZoneSpec& zs = c.zones[static_cast<size_t>(kv.first)];
+          bool toggled = false;
+          for (auto& ts : x.toggle_seq) if (ts.second == kv.first) toggled = true;
+          int64_t boff = 0;
+          if (!zs.literal && !toggled && zs.null_times == 0 && zs.eio_times == 0 && zs.throw_times == 0 && zs.read_throw_times == 0 && !builtin_name(zname, &boff)) {
+            bool expect = zs.state == "healthy" ? twin_of_zone(kv.first).first : false;
+            if (first->ok != expect)
+              viol("c14:history-dependence", "first load(" + zname + ") returned " + (first->ok ? "true" : "false"), std::string("a process that loads only this name gets ") + (expect ? "true" : "false"));
+          }
+        }
         for (const LoadRec* lr : v) {
           if (lr == first || lr->seq_inv < first->seq_ret) continue;
           // local_time_zone() has no success flag (UTC can be either outcome): compare handles only.
@@ -986,6 +1014,8 @@ Outcome exec_conc(const ConcCase& c, bool keep_log, Stats* stats) {
     stats->add("switches", sr.switches);
     stats->add("contended_lock_waits", sr.contended_locks);
     if (sr.cond_waits) stats->add("cond_waits", sr.cond_waits);
+    if (c.factory_reenters) stats->add("probe.factory_reentered_the_library");
+    if (unjudged_deadlock) stats->add("probe.reentrant_factory_deadlock_left_unjudged");
     { int64_t n = 0; for (const LoadRec& lr : x.loads) n += lr.threw; if (n) stats->add("probe.load_exited_by_exception", n); }
     if (sr.tls_blocks) stats->add("probe.thread_local_instances_created", sr.tls_blocks);
     if (sr.cond_timeouts) stats->add("cond_timeouts", sr.cond_timeouts);
